@@ -56,13 +56,15 @@ ASSUMPTIONS = [
     "continuous mapped function equal the function, jump is 0",
     "an exception raised by evaluation is 'rejected', never 'held' (operators without evaluate, math domain errors, unmapped terminals)",
     "results that are UFL scalar constants (IntValue/FloatValue/Zero returned by PermutationSymbol.evaluate) count as their numeric value",
+    "a KeyError for an Index object while every free index of the expression has a value is not a refusal but a lost binding of the "
+    "evaluator's own index stack (violation index-value-lost); a returned object that is neither a number nor a UFL expression is a violation",
 ]
-BUDGET = {"quick": 45, "thorough": 400}
+BUDGET = {"quick": 55, "thorough": 400}
 NCASES = {"quick": 16000, "thorough": 240000}
 CASE_TIMEOUT = 30.0
 EVAL_COUNTER = "values_agree"
 FLOORS = {
-    "quick": {"held": 5000, "values_agree": 55000, "held_with_derivative": 700, "held_open": 1000, "held_tensor": 1800, "held_complex": 1400},
+    "quick": {"held": 4000, "values_agree": 42000, "held_with_derivative": 550, "held_open": 800, "held_tensor": 1400, "held_complex": 1100},
     "thorough": {"held": 78000, "values_agree": 800000, "held_with_derivative": 10000, "held_open": 15000, "held_tensor": 27000, "held_complex": 21000},
 }
 _CORE_OPS = [
@@ -288,6 +290,14 @@ def observe(ctx, recipe, expr, pool, points, mapping, rng, kinds, record=True, m
                         ctx.count("events_" + kind)
                     try:
                         res = run_event(kind, expr, expanded, pool, xarg, mapping, comp, fi_names, vals)
+                    except KeyError as ex:
+                        if isinstance(ex.args[0] if ex.args else None, ufl.core.multiindex.Index) and J.state == "ok":
+                            # not a refusal: every free index was given a value, the evaluator's own index stack lost one
+                            out.append(("lostindex", {"kind": kind, "x": x, "xform": variant, "comp": comp, "index_values": dict(zip(fi_names, vals)),
+                                                      "got": "KeyError(" + str(ex)[:40] + ")", "expected": None, "err": float("nan"), "point": pi}))
+                        else:
+                            out.append(("rejected", {"kind": kind, "exc": type(ex).__name__, "msg": str(ex)[:80]}))
+                        continue
                     except Exception as ex:
                         out.append(("rejected", {"kind": kind, "exc": type(ex).__name__, "msg": str(ex)[:80]}))
                         continue
@@ -370,7 +380,7 @@ def localise(ctx, recipe, pool, bad, mapping, rng):
             continue
         kinds = ["whole"] if whole else ([bad["kind"]] if not sub.fi else ["evaluate"])
         res, _ = observe(ctx, sub, e, pool, point, mapping, rng, kinds, record=False)
-        wrong = [r for r in res if r[0] in ("disagree", "whole-disagree", "nonnumeric")]
+        wrong = [r for r in res if r[0] in ("disagree", "whole-disagree", "nonnumeric", "lostindex")]
         if wrong:
             return sub, e, wrong[0][1]
     return None, None, None
@@ -446,7 +456,7 @@ def case(ctx, i, rng):
         return
     ctx.count("built")
     points = []
-    for _ in range(2):
+    for _ in range(2 if ctx.tier == "quick" else 3):
         points.append((tuple(rng.choice(COORDS) for _ in range(d)), rng.choice(["tuple", "tuple", "list", "float"])))
     mapping = pool.mapping(no_derivatives=not has_deriv)
     used_styles = set(pool.used_styles)
@@ -467,7 +477,7 @@ def case(ctx, i, rng):
             ctx.covered("symbolic_results", info["type"])
         if v.startswith("whole-"):
             ctx.covered("whole_value_outcomes", v + ":" + type(expr).__name__)
-    bad = [info for v, info in res if v in ("disagree", "whole-disagree")] or [info for v, info in res if v == "nonnumeric"]
+    bad = [info for v, info in res if v in ("disagree", "whole-disagree")] or [info for v, info in res if v in ("nonnumeric", "lostindex")]
     if bad:
         ctx.count("violated")
         b = bad[0]
@@ -482,15 +492,17 @@ def case(ctx, i, rng):
             pm = pool.mapping(no_derivatives=False, python_only=True)
             kind = b["kind"] if not whole else "whole"
             r2, _ = observe(ctx, sub, sube, pool, [(b["x"], b.get("xform", "tuple"))], pm, rng, [kind if not sub.fi else "evaluate"], record=False)
-            if r2 and not any(v in ("disagree", "whole-disagree", "nonnumeric") for v, _ in r2):
+            if r2 and not any(v in ("disagree", "whole-disagree", "nonnumeric", "lostindex") for v, _ in r2):
                 suffix = "/numpy-typed-mapping-value"
         if reuses_bound_index(sub):
             suffix += "/index-also-bound-inside-operand"
         nonnum = winfo.get("expected") is None
-        key = f"C24/{'non-numeric-result' if nonnum else ('whole-value' if whole else 'wrong-value')}/{cls}{suffix}"
+        lost = nonnum and str(winfo["got"]).startswith("KeyError(")
+        key = f"C24/{('index-value-lost' if lost else 'non-numeric-result') if nonnum else ('whole-value' if whole else 'wrong-value')}/{cls}{suffix}"
         ctx.violation(
             key,
-            (f"{b['kind']} event: {cls} evaluates to the non-numeric object {winfo['got']} at x={b['x']}" if nonnum else
+            (f"{b['kind']} event: evaluation of {cls} loses the value of an index it was given: {winfo['got']} at x={b['x']}" if lost else
+             f"{b['kind']} event: {cls} evaluates to the non-numeric object {winfo['got']} at x={b['x']}" if nonnum else
              f"{b['kind']} event: {cls} evaluates to {winfo['got']!r}, mathematical value {complex(winfo['expected'])!r} (|diff| {winfo['err']:.3g}) at x={b['x']}"),
             {"culprit_recipe": D.show(sub, 600), "culprit_expr": str(sube)[:600], "whole_recipe": D.show(recipe, 900), "expr": str(expr)[:900], "component": repr(winfo.get("comp")),
              "index_values": repr(winfo.get("index_values")), "mapping_styles": {nm: pool.style[nm] for nm in sorted(pool.style)}, "note": b.get("note", ""), "returned": b.get("returned", "")},
